@@ -1217,6 +1217,12 @@ class Interp:
         if fr is not None and fr.spec:
             raise Unsupported("spec: undeclared field %s.%s" % (o.cls, name))
         if self.E.class_is_open(o.cls):
+            ty = self.E.infer_field_type(o.cls, name)
+            if ty is not None:
+                # a field the contracts do not know (added by a change to the class): typed after its initialiser
+                self.E.auto_fields.add("%s.%s: %s" % (o.cls, name, ty))
+                self.E.declare_class(o.cls, {name: ty})
+                return self.get_field(ref, name, fr, site, declared_only)
             raise Unsupported("field %s.%s has no declared type (add it to the class declaration)" % (o.cls, name))
         self.raise_py("AttributeError", "%s has no attribute %s" % (o.cls, name), site)
 
